@@ -26,7 +26,7 @@ COMMON_ASSUME = [
     "EINTR is not injected",
 ]
 
-SPAWN_UW = [(r"vh_popen::make_streams", 4), (r"drop_glue::<\[", 5)]
+SPAWN_UW = [(r"vh_popen::make_streams", 4), (r"drop_glue::<\[", 5), (r"vh_popen::split_n", 20), (r"vh_popen::spawn_parent", 17)]
 
 REG = {}
 
@@ -39,17 +39,64 @@ def H(mod, name, **kw):
     return Harness(MODS[mod] + name, **kw)
 
 
+SPAWN_BOUNDS = {"stream_config": "symbolic: all 5x5x5 of {None,Pipe,Merge,File,RcFile}, shared/unshared Rc<File>, file close-on-exec flag",
+                "earlier_popens_alive": "0..2 (child role) / 2 (parent role)", "argv": "[\"/p\"]", "signal_mask": "any u64", "fd_table": 16}
+SPAWN_ENC = ["Popen::create", "Popen::setup_streams (+ prepare_pipe, prepare_file, prepare_rc_file, reuse_stream)", "PopenOs::os_start",
+             "PopenOsImpl::do_exec", "os::set_inheritable", "os::make_pipe", "Drop for Popen", "PopenOs::os_wait", "PopenOsImpl::waitpid",
+             "posix::{pipe,fork,dup2,prep_exec,PrepExec::{new,exec,assemble_exe,libc_exec},CVec::new,reset_sigpipe,make_standard_stream,waitpid,_exit,check_err}"]
+SPAWN_ASSUME = COMMON_ASSUME + ["parent fds 0,1,2 are open; new descriptors are allocated lowest-free (POSIX)",
+                                "io::Error's CustomOwner::outer_drop function pointer is pinned to alloc's drop_box_raw::<Custom> (the only value ever stored there); virtual calls restricted by -Z restrict-vtable"]
+
+
+def spawn_child_h():
+    return H("popen", "h_spawn_child", unwind=3, unwindset=SPAWN_UW, timeout=1500, bounds=SPAWN_BOUNDS,
+             covers=["COVER/exec-started", "COVER/fork-child-role", "COVER/invalid-config-returned"])
+
+
+def spawn_parent_h():
+    return H("popen", "h_spawn_parent", unwind=3, unwindset=SPAWN_UW, timeout=1500, bounds=SPAWN_BOUNDS, covers=["COVER/parent-ok"])
+
+
+def fail_parent_h():
+    b = dict(SPAWN_BOUNDS)
+    b.update({"fault_point": "k-th of the pipe/fcntl/fork calls, k in 1..=17 (there are at most 15), or child-side failure reported on the status pipe",
+              "errno": "any 1..=4095", "detached": "any"})
+    return H("popen", "h_fail_parent", unwind=3, unwindset=SPAWN_UW, timeout=2400, bounds=b,
+             covers=["COVER/parent-launch-error", "COVER/parent-fault-pipe", "COVER/parent-fault-fcntl", "COVER/parent-fault-fork"])
+
+
 REG["C05"] = Spec(
-    quick=[
-        H("popen", "h_spawn_child_c05_" + s, unwind=3, unwindset=SPAWN_UW, timeout=900,
-          bounds={"stream_config": "stdin=%s x all 5x5 (stdout,stderr) of {None,Pipe,Merge,File,RcFile} x shared/unshared Rc<File> x file cloexec flag" % s,
-                  "earlier_popens": 0, "argv": "[\"/p\"]", "signal_mask": "any u64"})
-        for s in ("none", "pipe", "file", "rc", "merge")
-    ],
-    encodes=["Popen::create", "Popen::setup_streams", "PopenOs::os_start", "PopenOsImpl::do_exec", "os::set_inheritable",
-             "posix::{pipe,fork,dup2,prep_exec,reset_sigpipe,make_standard_stream}"],
-    bounds="configuration space finite and fully symbolic: 5x5x5 redirection kinds, shared/unshared Rc<File>, 0..2 earlier Popens alive; descriptor table of 12 entries",
-    outside="parents whose fds 0-2 are closed; the STREAMS thread-local cache; Windows",
-    assumptions=COMMON_ASSUME + ["parent fds 0,1,2 are open; new descriptors are allocated lowest-free (POSIX)"],
-    explanation="bounded model checking (Kani/CBMC, SAT) of the real spawn path over a symbolic stream configuration; wiring asserted inside the model exec()",
+    quick=[spawn_child_h(), spawn_parent_h()],
+    encodes=SPAWN_ENC,
+    bounds="configuration space finite and covered completely and symbolically: 5x5x5 redirection kinds, shared/unshared Rc<File>, file close-on-exec flag, 0..2 earlier Popens alive; descriptor table of 16 entries; one spawn (repeated spawns follow by induction on the pre-state invariant: fds 0-2 open and untouched)",
+    outside="parents whose fds 0-2 are closed; the STREAMS thread-local cache (short-lived threads: only make_standard_stream's leaked Rc is encoded); Windows",
+    assumptions=SPAWN_ASSUME,
+    explanation="bounded model checking (Kani -> CBMC, SAT) of the real spawn path in child role (wiring asserted inside the model exec) and in parent role (handles, identity of parent ends, own std streams) over a fully symbolic stream configuration",
+)
+
+REG["C07"] = Spec(
+    quick=[fail_parent_h(), spawn_parent_h()],
+    encodes=SPAWN_ENC,
+    bounds="every stream configuration x every injection point of the parent side (k-th pipe()/fcntl()/fork() failing, k symbolic) x child-side failure reported through the status pipe x errno 1..=4095 x detached",
+    outside="short or failing read of the 4-byte status report; EINTR; child-side steps themselves (h_fail_child, see C07 child harness)",
+    assumptions=SPAWN_ASSUME + ["a child whose launch failed _exit()s right after reporting (model: becomes a zombie when the report is read)"],
+    explanation="bounded model checking of Popen::create in parent role with symbolic fault injection in the model kernel; asserted at return: Ok iff started, exact errno, descriptor table back to the pre-call table, forked child reaped",
+)
+
+REG["C08"] = Spec(
+    quick=[spawn_child_h(), spawn_parent_h()],
+    encodes=SPAWN_ENC,
+    bounds="single spawn from a pre-state holding 0..2 earlier Popens' parent ends (invariant: close-on-exec), every stream configuration",
+    outside="two spawns actually interleaving on different threads (see known finding: pipe()+fcntl window); pipelines (C13 harness)",
+    assumptions=SPAWN_ASSUME,
+    explanation="inductive step over spawn histories: pre-state = arbitrary earlier parent ends satisfying the invariant, one real Popen::create; at the model exec no library pipe end above fd 2 survives; after create every parent end is close-on-exec and every child end is closed in the parent",
+)
+
+REG["C18"] = Spec(
+    quick=[spawn_child_h()],
+    encodes=["posix::reset_sigpipe", "PopenOsImpl::do_exec", "PopenOs::os_start"],
+    bounds="spawning thread's signal mask: any of 2^64; SIGPIPE ignored in the parent; every stream configuration",
+    outside="pipeline stages (same do_exec, covered by the C13 pipeline harness)",
+    assumptions=SPAWN_ASSUME,
+    explanation="bounded model checking of the child role: at the model exec the mask is empty and SIGPIPE is at default, on every path that reaches exec",
 )
